@@ -56,7 +56,13 @@ func expectedWire(fi *fitmodel.FieldInfo, v fitmodel.Val, be bool) ([]byte, bool
 		out := make([]byte, fi.Length)
 		s := v.S
 		if len(s) > fi.Length-1 {
-			s = s[:fi.Length-1]
+			// an over-long string is cut to the longest prefix of whole
+			// characters that leaves room for the terminator
+			n := fi.Length - 1
+			for n > 0 && !utf8.RuneStart(s[n]) {
+				n--
+			}
+			s = s[:n]
 		}
 		copy(out, s)
 		return out, true
@@ -213,18 +219,11 @@ func checkEncode(fs *gen.FileSpec, labels map[string]int) (string, bool) {
 
 func specHasBadString(fs *gen.FileSpec) bool {
 	bad := false
-	tab := prof.Table()
 	visit := func(ms gen.MsgSpec) {
-		mi := tab.Msgs[ms.Global]
-		for name, v := range ms.Fields {
+		for _, v := range ms.Fields {
 			switch {
 			case v.K == 's':
-				// the encoder cuts to length-1 bytes before validating
-				s := v.S
-				if i := mi.Index(name); i >= 0 && len(s) > mi.BySIdx[i].Length-1 {
-					s = s[:mi.BySIdx[i].Length-1]
-				}
-				if !utf8.ValidString(s) {
+				if !utf8.ValidString(v.S) {
 					bad = true
 				}
 			case v.K == 'a' && len(v.Elems) > 0 && v.Elems[0].K == 's':
